@@ -120,6 +120,11 @@ class Scenario:
         self.b = b
         self.control = control  # the replacement of ``b`` in the control model
 
+    @property
+    def key(self) -> str:
+        """Part of the mechanism keys: entity kinds and naming pattern."""
+        return f"{self.kind}/{self.pattern.replace('/swapped', '')}"
+
     def texts(self) -> Tuple[str, str]:
         return build_model(self.kind, self.a, self.b), build_model(self.kind, self.a, self.control)
 
@@ -340,6 +345,7 @@ class Worker:
         self.gxx = sc.gxx_available()
         self.classpath = sc.jackson_classpath()
         self.serial = 0
+        self.absolute_done: set = set()
         if not self.java.available or self.classpath is None:
             self.chk.unavailable_leg(
                 "java: javac or the Jackson jars are missing; javac attribution was not used "
@@ -414,10 +420,52 @@ class Worker:
                 counter[(scope, d.name)] += 1
         return counter, scanned
 
+    def absolute(self, scenario: Scenario, target: str, control: Output, control_text: str) -> None:
+        """
+        The control model has no near-collision at all: its output must not declare a type,
+        field or enumeration literal (Go, which has no overloading: anything; Python: a class
+        or function) twice in a scope.  Checked
+        once per scenario kind and target in every worker (the controls of a kind differ
+        only in one harmless name).
+        """
+        chk = self.chk
+        if (target, scenario.kind) in self.absolute_done:
+            return
+        self.absolute_done.add((target, scenario.kind))
+        control.absolute = True  # type: ignore  # the compiler leg looks at all its files
+        counter: Dict[Tuple[str, str, str], int] = collections.Counter()
+        for rel, path in control.files.items():
+            try:
+                found = declscan.decls_of(path, rel)
+            except (SyntaxError, ValueError, RecursionError):
+                continue
+            for d in found or []:
+                if target == "python" and d.kind not in ("class", "def"):
+                    continue
+                if target in ("csharp", "java", "typescript") and (
+                    d.kind not in ("type", "field", "literal") or d.name.startswith("@")
+                ):
+                    continue  # methods may be overloaded
+                if target == "cpp":
+                    # template specialisations repeat a type name legitimately; g++ judges
+                    # the collision-free C++ output instead (see ``compilers``)
+                    continue
+                counter[(d.scope, d.kind, d.name)] += 1
+        chk.count("control_outputs_checked_absolutely")
+        dups = sorted(k for k, n in counter.items() if n > 1)
+        if dups:
+            chk.hist("detections", f"{target}:duplicate-in-collision-free-model")
+            chk.violation(
+                f"{target}/collision/collision-free-model",
+                {"detector": "duplicate-declaration", "target": target,
+                 "declared_twice": [list(k) for k in dups[:12]], "meta_model": control_text},
+            )
+
     def compare(self, scenario: Scenario, target: str, model: Output, control: Output,
                 text: str, control_text: str) -> None:
         chk = self.chk
-        mechanism = f"{target}/collision/{scenario.kind}"
+        self.absolute(scenario, target, control, control_text)
+        mechanism = f"{target}/collision/{scenario.key}"
 
         def witness(**extra: Any) -> Dict[str, Any]:
             chk.hist("detections", f"{target}:{extra.get('detector', '')}")
@@ -509,6 +557,21 @@ class Worker:
                     ))
                     if out is model:
                         model_failures = failures
+                        if not results[0] and not getattr(control, "absolute", False):
+                            # nothing to compare with: spare the control's attribution
+                            results.append(collections.Counter())
+                            break
+                    elif results[-1]:
+                        chk.hist("detections", "java:javac-in-collision-free-model")
+                        chk.violation(
+                            "java/collision/collision-free-model",
+                            {"detector": "javac-attribution", "target": "java",
+                             "diagnostics": [
+                                 {"file": pathlib.Path(f.path).name, "line": f.line,
+                                  "code": f.code, "message": f.message}
+                                 for f in failures if JAVAC_COLLISION.search(f.code)][:8],
+                             "meta_model": control_text},
+                        )
                 if len(results) == 2:
                     more = {c: n for c, n in results[0].items() if n > results[1].get(c, 0)}
                     if more:
@@ -518,7 +581,7 @@ class Worker:
                             for f in model_failures if f.code in more
                         ][:8]
                         chk.violation(
-                            f"java/collision/{s.kind}",
+                            f"java/collision/{s.key}",
                             witness(s, target, text, control_text, detector="javac-attribution",
                                     diagnostics=sample),
                         )
@@ -531,7 +594,10 @@ class Worker:
                     continue
                 for which, out in (("model", model), ("control", control)):
                     for rel, p in out.files.items():
-                        if rel.endswith(".ts"):
+                        if rel.endswith(".ts") and (
+                            rel in getattr(out, "differing", out.files)
+                            or getattr(out, "absolute", False)
+                        ):
                             paths[str(p)] = (job, which, rel)
             if paths:
                 with timed(chk, "node"):
@@ -547,10 +613,18 @@ class Worker:
                         job, which, rel = paths[f.path]
                         per_job.setdefault(id(job), {"model": [], "control": [], "job": job})[which].append(f)  # type: ignore
                     for entry in per_job.values():
+                        if entry["control"] and getattr(entry["job"][3], "absolute", False):  # type: ignore
+                            chk.hist("detections", "typescript:v8-in-collision-free-model")
+                            chk.violation(
+                                "typescript/collision/collision-free-model",
+                                {"detector": "v8-early-error", "target": "typescript",
+                                 "diagnostics": [f.message[:200] for f in entry["control"]][:6],
+                                 "meta_model": entry["job"][5]},  # type: ignore
+                            )
                         if len(entry["model"]) > len(entry["control"]):
                             s, target, model, control, text, control_text = entry["job"]  # type: ignore
                             chk.violation(
-                                f"typescript/collision/{s.kind}",
+                                f"typescript/collision/{s.key}",
                                 witness(s, target, text, control_text, detector="v8-early-error",
                                         diagnostics=[f.message[:200] for f in entry["model"]][:6]),
                             )
@@ -570,7 +644,9 @@ class Worker:
                             for rel, p in sorted(out.files.items()):
                                 if rel.startswith("test/") or "jsonization" in rel:
                                     continue
-                                if rel not in getattr(out, "differing", out.files):
+                                if rel not in getattr(out, "differing", out.files) and not getattr(
+                                    out, "absolute", False
+                                ):
                                     continue
                                 if rel.endswith(".hpp") or rel.endswith(
                                     ("types.cpp", "constants.cpp", "verification.cpp",
@@ -595,10 +671,18 @@ class Worker:
                                     entry[which].append(f"{pathlib.Path(path).name}:{line}: {message}")
                                     break
                         for entry in per.values():
+                            if entry["control"] and getattr(entry["job"][3], "absolute", False):
+                                chk.hist("detections", "cpp:g++-in-collision-free-model")
+                                chk.violation(
+                                    "cpp/collision/collision-free-model",
+                                    {"detector": "g++", "target": "cpp",
+                                     "diagnostics": entry["control"][:8],
+                                     "meta_model": entry["job"][5]},
+                                )
                             if len(entry["model"]) > len(entry["control"]):
                                 s, target, model, control, text, control_text = entry["job"]
                                 chk.violation(
-                                    f"cpp/collision/{s.kind}",
+                                    f"cpp/collision/{s.key}",
                                     witness(s, target, text, control_text, detector="g++",
                                             diagnostics=entry["model"][:8]),
                                 )
@@ -635,7 +719,7 @@ class Worker:
                 elif control.ok:
                     sig = harness.crash_signature(model.exc)
                     chk.violation(
-                        f"{target}/crash-instead-of-collision-report/{s.kind}",
+                        f"{target}/crash-instead-of-collision-report/{s.key}",
                         {"crash": sig, "scenario": s.kind, "pattern": s.pattern, "name_a": s.a, "name_b": s.b,
                          "target": target, "meta_model": text,
                          "traceback": harness.format_exc(model.exc)[-2500:]},
@@ -728,8 +812,39 @@ def worker(args) -> Dict[str, Any]:
     return chk.export()
 
 
+def replay(argv, path: str) -> int:
+    """Re-run the scenario of a replay file and say whether the mechanism shows again."""
+    import json
+
+    data = json.loads(pathlib.Path(path).read_text())
+    witness = data["witness"]
+    w = Worker([a for a in argv if not a.startswith("--replay") and a != path], 0)
+    try:
+        todo = [
+            s for s in scenarios("thorough")
+            if s.kind == witness.get("scenario") and s.pattern == witness.get("pattern")
+        ]
+        pending: List = []
+        alive: List[Output] = []
+        for s in todo[:1]:
+            alive.extend(w.run_scenario(s, pending))
+        if pending:
+            w.compilers(pending)
+        for out in alive:
+            shutil.rmtree(out.workdir, ignore_errors=True)
+    finally:
+        w.close()
+    observed = sorted(w.chk.violations) + sorted(w.chk.known_hits)
+    reproduced = data["mechanism"] in observed
+    print(f"REPLAY property=C21 mechanism={data['mechanism']} "
+          f"{'reproduced' if reproduced else 'not reproduced'}; observed={observed}")
+    return 1 if reproduced else 0
+
+
 def main(argv) -> int:
     chk = harness.Check("C21", "exploration", RULE, argv)
+    if chk.replay:
+        return replay(list(argv), chk.replay)
     n_shards = int(os.environ.get("VF_C21_WORKERS", "8"))
     with concurrent.futures.ProcessPoolExecutor(max_workers=n_shards) as pool:
         jobs = [pool.submit(worker, (list(argv), s, n_shards)) for s in range(n_shards)]
@@ -754,7 +869,7 @@ def main(argv) -> int:
         "named like a generated visitor) are out of scope: the property speaks of two "
         "meta-model entities"
     )
-    chk.require_min("scenarios_accepted", chk.pick(20, 120))
-    chk.require_min("outputs_compared", chk.pick(60, 500))
-    chk.require_min("declarations_compared", chk.pick(20000, 200000))
+    chk.require_min("scenarios_accepted", chk.pick(12, 100))
+    chk.require_min("outputs_compared", chk.pick(40, 400))
+    chk.require_min("declarations_compared", chk.pick(2000, 20000))
     return chk.finish()
